@@ -31,6 +31,9 @@ ASSUMPTIONS = [
 ]
 
 MATS = ["scale(2)", "translate(3,-4)", "rotate(30)", "scale(-1,1)", "scale(2,0.5)", "matrix(1,0.5,-0.3,2,5,6)", "rotate(90) translate(10,0)"]
+# multipliers of the derivation x*M also include the identity in its spellings: "nothing to do" shortcuts
+# are where an operator is tempted to hand back its operand
+DERIV_MATS = MATS + ["", "scale(1)", "rotate(0)", "translate(0,0)", "matrix(1,0,0,1,0,0)"]
 COLORS = ["red", "#123456", "rgb(10,20,30)", "blue", "#abc", "none", None, "#00ff0080"]
 
 T_MUTS = ["imul", "imul_str", "xf_post_scale", "xf_pre_translate", "xf_attr", "xf_reset", "xf_setitem"]
@@ -127,7 +130,7 @@ def generate(seed, index, tier):
     kind = KINDS[index % len(KINDS)]
     derivs, muts = KIND_TABLE[kind]
     deriv = derivs[(index // len(KINDS)) % len(derivs)]
-    case = {"kind": kind, "spec": _obj_spec(ch, kind), "deriv": deriv, "m": ch.choice(MATS)}
+    case = {"kind": kind, "spec": _obj_spec(ch, kind), "deriv": deriv, "m": ch.choice(DERIV_MATS)}
     # second operand where the derivation takes one
     if deriv in ("add", "sub", "mulmat", "matmul"):
         case["spec2"] = _obj_spec(ch, kind)
